@@ -19,7 +19,7 @@ GRAPH_OPS = ("regfun", "regknob", "refresh")
 
 def would_change(op, prev_tasks):
     k = op[0]
-    flat = lambda p: [p[0]] + [s[1] for s in p[1:]]
+    flat = mc.flat
     if k == "set":
         return op[2][0] == "expr" or flat(op[1]) in prev_tasks
     if k == "inplace":
